@@ -40,7 +40,8 @@ def shape(rng, d, ctx):
             out.append('try { %s %s } %s { %s }' % (shape(rng, d - 1, dict(ctx, tryb=True)), rng.choice(['!is_defeat();', '!truth_is_defeat(x > 3);', '']),
                                                    rng.choice(['undo', 'stop']), shape(rng, d - 1, ctx)))
         elif r < 0.93 and (ctx['tryb'] or ctx['flavor'] == 'defeat'):
-            out.append(rng.choice(['!is_defeat();', 'preempt { %s }' % shape(rng, d - 1, ctx), '!truth_is_defeat(x > 5);']))
+            out.append(rng.choice(['!is_defeat();', 'preempt { %s }' % shape(rng, d - 1, ctx), '!truth_is_defeat(x > 5);', '!truth_is_defeat(false);',
+                                   '!truth_is_defeat(1 > 2);', '!truth_is_defeat(true);', '!truth_is_defeat(not true);']))
         elif r < 0.96: out.append(rng.choice(['all_is_win();', 'all_is_broken();']))
         elif r < 0.985:
             # user functions that share a *name* with a terminal / defeat builtin but not its flavour: ordinary calls that return
